@@ -421,7 +421,7 @@ fn main() {
                 } else if n <= 3 && dim <= 2 {
                     all_vs(t, &[1, 3])
                 } else {
-                    let k = if th { 3 } else { 1 };
+                    let k = if !th { 1 } else if n <= 4 { 3 } else if n == 5 { 2 } else { 1 };
                     (0..k).map(|_| random_vs(t, &mut rng, &[1, 2, 3, 4, 6])).collect()
                 };
                 for (si, s) in syms.iter().enumerate() {
@@ -476,9 +476,9 @@ fn main() {
                 let tag = format!("nt spherical dim=2 size={}", n);
                 universal_cases(&mut ctx, s, &tag);
                 let ng = nr_generators(s);
-                let subsets = subgroup_gens(ng, 2, if th { 6 } else { 2 }, &mut rng);
+                let subsets = subgroup_gens(ng, 2, if th { 3 } else { 2 }, &mut rng);
                 for (k, subs) in subsets.iter().enumerate() {
-                    if n <= 2 || (th && n <= 3) || k % 4 == 0 {
+                    if n <= 2 || (th && n <= 3) || k % (if n >= 5 { 12 } else { 4 }) == 0 {
                         subgroup_case(&mut ctx, s, subs, &tag);
                     }
                 }
